@@ -20,6 +20,8 @@ ASSUMPTIONS = [
     "values compared in the linear domain: STFT rtol 1e-9 (float64) / 2e-6 (float32), SI rtol 1e-7 / 2e-5, of column max plus 1e-12 (1e-6 for float32) of the matrix max",
     "numpy FFT path only (scipy/fftpack not installed)",
     "sampling rate 1 kHz so that 1 ms = 1 sample; frame lengths up to 64 samples",
+    "chunks are slices of the signal or (a third of the cases) copies placed in one re-used buffer that the caller overwrites after each call: "
+    "what is passed is the same cutting of the signal either way",
 ]
 
 DTYPES = {"f64": np.float64, "f32": np.float32}
@@ -46,13 +48,21 @@ def _tols(spec, dt):
     return (1e-9, 1e-11) if dt == "f64" else (2e-6, 1e-6)
 
 
-def _run_chunked(comp, x, lens):
+def _run_chunked(comp, x, lens, packet_buffer=False):
+    """packet_buffer: the caller copies every chunk into one preallocated buffer, hands the computer a view of it and
+    re-uses the buffer afterwards (ordinary streaming I/O) - what was passed stays the same cutting of the signal."""
     outs = []
     pos = 0
+    buf = np.empty(max([1] + list(lens)), dtype=x.dtype) if packet_buffer else None
     for n in lens:
         chunk = x[pos : pos + n]
         pos += n
+        if buf is not None:
+            buf[:n] = chunk
+            chunk = buf[:n]
         o = call("compute_chunk(len %d)" % n, comp.compute_chunk, chunk)
+        if buf is not None:
+            buf[:] = 777.0  # the buffer now belongs to the caller again
         require(o.ndim == 2 and o.shape[1] == comp.num_coeffs, "compute_chunk returned shape {}", o.shape)
         outs.append(o)
     o = call("finalize", comp.finalize)
@@ -129,9 +139,11 @@ def check_chunked(case):
     lens = compositions(N, case["cuts"])
     full = call("compute_full", fresh.compute_full, x)
     _prior(stream, case, dt)
-    outs = _run_chunked(stream, x, lens)
-    _compare(spec, dt, outs, full, "N=%d L=%d S=%d chunks=%s" % (N, L, S, lens))
-    return {"nontrivial": _nontrivial(stream, lens, full.shape[0]), "labels": _labels(spec, stream, N, lens) + ["dtype=" + dt]}
+    pb = bool(case.get("packet_buffer"))
+    outs = _run_chunked(stream, x, lens, pb)
+    _compare(spec, dt, outs, full, "N=%d L=%d S=%d chunks=%s%s" % (N, L, S, lens, " (chunks passed through one re-used buffer)" if pb else ""))
+    return {"nontrivial": _nontrivial(stream, lens, full.shape[0]),
+            "labels": _labels(spec, stream, N, lens) + ["dtype=" + dt, "re-used packet buffer" if pb else "slices of the signal"]}
 
 
 def check_fbf(case):
@@ -205,8 +217,8 @@ def check_enum(case):
     full = call("compute_full", fresh.compute_full, x)
     base = _lens_from_mask(N, case["mask"])
     variants = [base] + [base[:i] + [0] + base[i:] for i in range(len(base) + 1)]
-    for lens in variants:
-        outs = _run_chunked(stream, x, lens)
+    for vi, lens in enumerate(variants):
+        outs = _run_chunked(stream, x, lens, packet_buffer=bool((vi + case["mask"]) % 2))
         _compare(spec, "f64", outs, full, "N=%d L=%d S=%d %s%s chunks=%s" % (N, L, S, case["style"], "+kaldi" if case["kaldi"] else "", lens))
     return {"nontrivial": len(base) >= 2 and full.shape[0] >= 1, "labels": ["style=" + case["style"]]}
 
@@ -249,8 +261,8 @@ def check_enum_si(case):
     full = call("compute_full", fresh.compute_full, x)
     base = _lens_from_mask(N, case["mask"])
     variants = [base] + [base[:i] + [0] + base[i:] for i in range(len(base) + 1)]
-    for lens in variants:
-        outs = _run_chunked(stream, x, lens)
+    for vi, lens in enumerate(variants):
+        outs = _run_chunked(stream, x, lens, packet_buffer=bool((vi + case["mask"]) % 2))
         _compare(spec, "f64", outs, full, "SI %s N=%d S=%d %s chunks=%s" % (case["bank"], N, S, case["style"], lens))
     return {"nontrivial": len(base) >= 2 and full.shape[0] >= 1, "labels": ["style=" + case["style"], "bank=" + case["bank"]]}
 
@@ -280,6 +292,7 @@ def _stft_cases(draw):
         "cuts": draw(cut_lists(n, L, S)),
         "dtype": draw(st.sampled_from(["f64", "f64", "f64", "f32"])),
         "prior": draw(_priors(L, S)),
+        "packet_buffer": draw(st.sampled_from([False, False, True])),
     }
 
 
@@ -303,6 +316,7 @@ def _si_cases(draw):
         "cuts": draw(cut_lists(n, 2 * S, S)),
         "dtype": draw(st.sampled_from(["f64", "f64", "f64", "f32"])),
         "prior": draw(_priors(2 * S, S)),
+        "packet_buffer": draw(st.sampled_from([False, False, True])),
     }
 
 
